@@ -98,11 +98,17 @@ def case_random(ctx, rng, wd):
     ts = np.concatenate([[0], np.cumsum(rng.integers(1, 4, size=T - 1))]) * step if uneven else step * np.arange(T)
     if uneven and len(set(np.diff(ts).tolist())) == 1:
         ts[-1] += step
-    snaps = gc.snapshots_from([gc.snapshot_from(cell, (f0 + (rng.normal(0, 0.03, f0.shape) if t else 0)) % 1.0, np.ones(N, dtype=int), int(ts[t])) for t in range(T)])
+    # sheared trajectories (equal edge lengths, an own tilt per frame): every frame has its own cell matrix
+    shear = cellkind == "tri" and T > 1 and rng.random() < 0.5
+    cells = [cell] + [gc.retilt(rng, cell) if shear else cell for _ in range(T - 1)]
+    snaps = gc.snapshots_from([gc.snapshot_from(cells[t], (f0 + (rng.normal(0, 0.03, f0.shape) if t else 0)) % 1.0, np.ones(N, dtype=int), int(ts[t])) for t in range(T)])
     H = cell["H"]
+    Hs = [c["H"] for c in cells]
+    if shear:
+        cellkind = "tri/sheared"
     ppp = np.ones(2, dtype=int) if nlkind == "voronoi" else gc.random_mask(rng, 2, allow_open=False)
-    ra = geom.agreement_radius(H, ppp)
-    tables = [geom.pair_table(s.positions, H, ppp)[1] for s in snaps.snapshots]
+    ra = min(geom.agreement_radius(Hf, ppp) for Hf in Hs)
+    tables = [geom.pair_table(s.positions, Hf, ppp)[1] for s, Hf in zip(snaps.snapshots, Hs)]
     if min(float(np.min(t + np.eye(N) * 9)) for t in tables) < 1e-3:
         return
     fn = os.path.join(wd, "nl.dat")
@@ -151,7 +157,7 @@ def case_random(ctx, rng, wd):
     if any(len(x) == 0 for ll in lists for x in ll):
         return
     Nmax = max(10, max(len(x) for ll in lists for x in ll) + 1)
-    info = lambda: {"l": l, "nl": nlkind, "N": N, "T": T, "cell": cellkind, "H": H, "ppp": ppp, "weights": bool(fw), "signed": signed, "timesteps": ts,  # noqa: E731
+    info = lambda: {"l": l, "nl": nlkind, "N": N, "T": T, "cell": cellkind, "H": Hs, "ppp": ppp, "weights": bool(fw), "signed": signed, "timesteps": ts,  # noqa: E731
                     "positions": [s.positions for s in snaps.snapshots] if N <= 14 else "omitted", "lists": lists if N <= 14 else "omitted"}
     phi_file = os.path.join(wd, "phi.npy") if rng.random() < 0.2 else ""
     ok, b = ctx.call("boo_2d", boo_2d, snaps, l, fn, fw, ppp, Nmax, phi_file, data=info)
@@ -163,7 +169,7 @@ def case_random(ctx, rng, wd):
         return
     psi = np.zeros((T, N), dtype=complex)
     for t in range(T):
-        psi[t], mb = ref_psi(snaps.snapshots[t].positions, H, ppp, lists[t], weights[t] if weights else None, l)
+        psi[t], mb = ref_psi(snaps.snapshots[t].positions, Hs[t], ppp, lists[t], weights[t] if weights else None, l)
         if mb >= ra:
             ctx.skip("psi")
             return
@@ -216,7 +222,7 @@ def case_random(ctx, rng, wd):
             lo_a, hi_a, glo, ghi = np.zeros(nb), np.zeros(nb), np.zeros(nb), np.zeros(nb)
             off = ~np.eye(N, dtype=bool)
             for t in range(T):
-                _v, dist, _ = geom.pair_table(snaps.snapshots[t].positions, H, ppp)
+                _v, dist, _ = geom.pair_table(snaps.snapshots[t].positions, Hs[t], ppp)
                 Wm = np.real(np.conj(psi[t])[:, None] * psi[t][None, :])
                 lo, hi, _ = rgr.histogram_interval(dist[off], w, nb, weights=Wm[off])
                 lo_a += lo
